@@ -314,13 +314,20 @@ ARGSPECS = [b"", b"", b"", b":i", b"::f", b":s:i", b"::T:F", b":", b":b"]
 
 def gen_tree(rng, depth, stats, kind=None):
     t = GT()
-    kind = kind or rng.choice(["hashed", "hashed", "enum", "dupl", "default", "single", "options"])
+    kind = kind or rng.choice(["hashed", "hashed", "longnames", "enum", "dupl", "default", "single", "options"])
     stats["tree_" + kind] = stats.get("tree_" + kind, 0) + 1
     n = 1 if kind == "single" else rng.randint(2, 10)
     names = set()
+    # port names beyond std::string's small-string buffer (>= 16 characters): every port of a `longnames` table, and
+    # now and then one port of any other table
+    long_p = 1.0 if kind == "longnames" else rng.choice([0.0, 0.0, 0.15, 0.5])
     for _ in range(n):
         for _try in range(20):
-            base = rstr(rng, 1, 6, NAME_ALPH)
+            if rng.random() < long_p:
+                base = rstr(rng, 16, 40, NAME_ALPH)
+                stats["long_port_names"] = stats.get("long_port_names", 0) + 1
+            else:
+                base = rstr(rng, 1, 6, NAME_ALPH)
             if base[0:1].isdigit():
                 continue
             if base not in names or kind == "dupl":
@@ -342,7 +349,7 @@ def gen_tree(rng, depth, stats, kind=None):
         t.ports.append((nm, k, sub))
     if kind == "dupl" and len(t.ports) >= 2:
         t.ports[1] = (t.ports[0][0], t.ports[1][1], t.ports[1][2]) if not t.ports[1][2] and not t.ports[0][2] else t.ports[1]
-    if kind == "default" or rng.random() < 0.15:
+    if kind == "default" or rng.random() < 0.15 or (kind == "longnames" and rng.random() < 0.4):
         t.default = rng.choice("pqce")
     return t
 
@@ -381,10 +388,16 @@ def tree_message(rng, t, stats):
             addr = addr[:i] + chr(rng.choice(NAME_ALPH)) + addr[i + 1:]
         elif c < 0.6:
             addr = addr[:i]
-        elif c < 0.8:
+        elif c < 0.7:
             addr = addr + chr(rng.choice(NAME_ALPH))
-        else:
+        elif c < 0.8:
             addr = rstr(rng, 1, 12, NAME_ALPH + b"/").decode()
+        else:
+            # long unknown address: its hash lies beyond the remap table (default handler or plain return)
+            addr = rstr(rng, 50, 120, NAME_ALPH).decode()
+            if rng.random() < 0.3:
+                addr += "/" + rstr(rng, 1, 30, NAME_ALPH).decode()
+            stats["long_unknown_addresses"] = stats.get("long_unknown_addresses", 0) + 1
     if not addr:
         addr = "q"
     stats["tree_msg_" + kind] = stats.get("tree_msg_" + kind, 0) + 1
@@ -526,9 +539,15 @@ def op_tlink(rng, stats):
     maxmsg = rng.choice([16, 32, 64, 64, 256, 1024])
     nmsgs = rng.choice([1, 2, 2, 3, 4, 8])
     ops = []
+    if rng.random() < 0.4:
+        # the first operation on the fresh link is a lookahead query / read (R = read without asking hasNext first)
+        ops.append(rng.choice(["h1", "h3", "r1", "r3", "R1", "R3", "R0", "p"]))
+        stats["tlink_first_op_lookahead"] = stats.get("tlink_first_op_lookahead", 0) + 1
     for _ in range(rng.randint(4, 40)):
         r = rng.random()
-        if r < 0.25:
+        if r < 0.02:
+            ops.append("R%d" % rng.randrange(4))
+        elif r < 0.25:
             types = rtypes(rng, 4)
             vals = rvals(rng, types, big=rng.random() < 0.03)
             ops.append("a:%s:%s:%s" % (hx(raddr(rng)), types or "-", args_token(types, vals)))
@@ -571,7 +590,7 @@ def generate(rng, tier, stats, kinds=None, n=None):
     ntrees = 40 if tier == "quick" else 400
     trees = [gen_tree(rng, 0, stats) for _ in range(ntrees)]
     # one of each kind for sure
-    for k in ["hashed", "enum", "dupl", "default", "single", "options"]:
+    for k in ["hashed", "longnames", "longnames", "enum", "dupl", "default", "single", "options"]:
         trees.append(gen_tree(rng, 0, stats, kind=k))
     stats["generated_trees"] = len(trees)
     w = [WEIGHTS[k] for k in kinds]
@@ -615,7 +634,7 @@ def nontrivial(op, out=""):
     if w[0] == "reply":
         return w[3] != "0"
     if w[0] == "tlink":
-        return ("a:" in w[3] or "l:" in w[3] or "w:" in w[3]) and ";r" in w[3]
+        return ("a:" in w[3] or "l:" in w[3] or "w:" in w[3]) and (";r" in w[3] or ";R" in w[3])
     if w[0] == "meta":
         return True
     return False
